@@ -280,6 +280,17 @@ func subC20(out string, seed uint64, tier string, arg string) {
 			dnCert(sh, fmt.Sprintf("name structure %d", i))
 		}
 		rep.count("dn-structure-shapes")
+		// an attribute type that occurs twice with different encodings or values, in either order, in two RDNs or in one:
+		// a rule that stops at the first occurrence and its copy that looks at all of them part ways here
+		for _, t := range []asn1.ObjectIdentifier{oidC, oidO, asn1.ObjectIdentifier{2, 5, 4, 8}, asn1.ObjectIdentifier{2, 5, 4, 7}, asn1.ObjectIdentifier{2, 5, 4, 5}, asn1.ObjectIdentifier{2, 5, 4, 11}} {
+			good := atv{t, 0x13, "US"}
+			for j, bad := range []atv{{t, 0x0C, "DE"}, {t, 0x13, "usa"}, {t, 0x1E, "\x00D\x00E"}, {t, 0x16, "DE"}, {t, 0x0C, " "}, {t, 0x13, ""}, {t, 0x14, "DE"}} {
+				for k, sh := range [][][]atv{{{good}, {bad}, {cn}}, {{bad}, {good}, {cn}}, {{good, bad}, {cn}}, {{bad, good}, {cn}}, {{good}, {cn}, {bad}}, {{bad}, {cn}, {good}}} {
+					dnCert(sh, fmt.Sprintf("attribute %v twice, variant %d shape %d", t, j, k))
+				}
+			}
+		}
+		rep.count("dn-repeated-attribute-shapes")
 	}
 	// ---- thresholds
 	for _, days := range []int{396, 397, 398, 399, 400, 825} {
